@@ -17,6 +17,10 @@ CATALOGUE = {
     "foreign": ("/dev/ttyUSB{n}", "FT232R USB UART", "USB VID:PID=0403:6001 SER=A50285B{n} LOCATION=1-1"),
     "foreign_mentions": ("/dev/cu.wch{n}", "Arduino {name} clone", "USB VID:PID=2341:0043 SER={name}X LOCATION=1-4"),
     "bluetooth": ("/dev/cu.Bluetooth-Incoming-Port{n}", "n/a", "n/a"),
+    # near misses: the product name or the vendor/product id is there, but not at the START of the string, or the product id differs
+    "name_not_initial": ("/dev/ttyACM9{n}", "Acme EiBotBoard clone {name}", "USB VID:PID=1A86:7523 LOCATION=3-{n}"),
+    "other_product": ("/dev/ttyACM8{n}", "USB Serial", "USB VID:PID=04D8:000A SER={name} LOCATION=1-3.{n}"),
+    "id_not_initial": ("COM2{n}", "Standard Serial over Bluetooth link (COM2{n})", "BTHENUM USB VID:PID=04D8:FD92 SER={name}"),
 }
 DESC_IS_EBB = {"mac_named", "unnamed"}
 ID_IS_EBB = {"mac_named", "unnamed", "win_ser", "win_snr", "vidpid_only"}
@@ -38,6 +42,17 @@ def render(abstract_ports):
         dev, desc, hwid = CATALOGUE[p["t"]]
         out.append(tuple(x.format(n=k + 3, name=p["nm"]) for x in (dev, desc, hwid)))
     return out
+
+
+def as_port_objects(ports):
+    """what pyserial 3 really enumerates: ListPortInfo objects (indexable like the triples of pyserial 2.7, and carrying attributes)"""
+    from serial.tools.list_ports_common import ListPortInfo
+    objs = []
+    for dev, desc, hwid in ports:
+        o = ListPortInfo(dev, True)
+        o.description, o.hwid = desc, hwid
+        objs.append(o)
+    return objs
 
 
 def idx_of(ports, dev):
@@ -66,11 +81,12 @@ class Session:
         lp.comports = fake
         self.obj = self.e3.EBB3()
 
-    def event(self, ports, abstract=None, extra_needles=()):
+    def event(self, ports, abstract=None, extra_needles=(), objects=False):
         prev = [list(p) for p in self.current]
-        self.current = list(ports)
+        self.current = as_port_objects(ports) if objects else list(ports)
+        self.nev = getattr(self, "nev", 0) + 1
         es, e3 = self.es, self.e3
-        ev = {"ports": [[codes(x) for x in p] for p in ports], "abstract": abstract, "strings": [list(p) for p in ports], "status": "ok",
+        ev = {"ports": [[codes(x) for x in p] for p in ports], "abstract": abstract, "strings": [list(p) for p in ports], "status": "ok", "objects": objects,
               "previous": prev}
         try:
             ev["first_legacy"] = idx_of(ports, es.findPort())
@@ -78,7 +94,7 @@ class Session:
             ev["first_ebb3"] = idx_of(ports, self.obj.port_name)
             for key, fn in (("list_legacy", es.listEBBports), ("list_ebb3", e3.list_ebb_ports)):
                 lst = fn()
-                ev[key] = [] if lst is None else [idx_of(ports, p[0]) if p in ports else -2 for p in lst]
+                ev[key] = [] if lst is None else [idx_of(ports, p[0]) if tuple(p) in ports else -2 for p in lst]
                 if lst is not None and len(lst) == 0:
                     ev[key] = [-3]                         # the statement says None when there are none
             nl, n3 = es.list_named_ebbs(), e3.list_named_ebbs()
@@ -110,6 +126,7 @@ class Session:
                                 "leg": idx_of(ports, es.find_named_ebb(nd)), "e3": idx_of(ports, e3.find_named(nd))})
             ev["lookups"] = lookups
             ev["named"] = [nl, n3]
+            ev["names"] = [[codes(x) if isinstance(x, str) else [0] for x in (lst or [])] for lst in (nl, n3)]
             if es.find_named_ebb(None) is not None or e3.find_named(None) is not None:
                 ev["status"] = "lookup of None returned a port"
         except Exception as ex:  # pylint: disable=broad-except
@@ -118,11 +135,12 @@ class Session:
                 ev.setdefault(key, -2)
             for key in ("list_legacy", "list_ebb3", "lookups"):
                 ev.setdefault(key, [])
+            ev.setdefault("names", [[], []])
         return ev
 
 
 def judge(ctx, name, evs):
-    slim = [{k: e[k] for k in ("ports", "first_legacy", "first_ebb3", "list_legacy", "list_ebb3")} for e in evs]
+    slim = [{k: e[k] for k in ("ports", "first_legacy", "first_ebb3", "list_legacy", "list_ebb3", "names")} for e in evs]
     for s, e in zip(slim, evs):
         s["lookups"] = [{k: l[k] for k in ("needle", "kind", "k", "cl", "ce", "leg", "e3")} for l in e["lookups"]]
     vs, stats = vlib.judge_events(os.path.join(ctx.workdir, name), "DiscoveryTrace", "DiscoveryTrace.cfg", slim, chunk=300)
@@ -137,12 +155,12 @@ def report(ctx, mode, evs, vs):
         drift += d
         if e["status"] != "ok":
             rej += 1
-            ctx.violation("discovery.raises_or_bad_result", {"mode": mode, "ports": e["strings"]}, "results", e["status"])
+            ctx.violation("discovery.raises_or_bad_result", {"mode": mode, "ports": e["strings"], "objects": e.get("objects", False)}, "results", e["status"])
         elif v != "ok":
             rej += 1
             clause, _, at = v.partition("@")
             l = e["lookups"][int(at) - 1] if at else None
-            ctx.violation(clause, {"mode": mode, "ports": e["strings"], "previous_enumeration": e["previous"], "needle": l["text"] if l else None,
+            ctx.violation(clause, {"mode": mode, "ports": e["strings"], "previous_enumeration": e["previous"], "objects": e.get("objects", False), "needle": l["text"] if l else None,
                            "own_board": l["k"] if l else None},
                           "abstract clause", {"first": [e["first_legacy"], e["first_ebb3"]], "lists": [e["list_legacy"], e["list_ebb3"]],
                                               "lookup": {"legacy": l["leg"], "ebb3": l["e3"]} if l else None, "named": e.get("named")})
@@ -168,7 +186,7 @@ def run(ctx):
             continue
         ports = render(st["ports"])
         ctx.count(tuple(ports))
-        evs.append(sess.event(ports, abstract=st["ports"]))
+        evs.append(sess.event(ports, abstract=st["ports"], objects=True))
         if n % 211 == 1:
             ctx.sample({"mode": "G", "abstract": st["ports"], "rendered": ports, "lookups": len(evs[-1]["lookups"]), "named": evs[-1].get("named")})
     os.remove(dump + ".dump")
@@ -180,14 +198,14 @@ def run(ctx):
     # V: random longer lists with all five names
     rng = random.Random(ctx.seed * 67867967 + 19)
     nv = 250 if tier == "quick" else 4000
-    names = ["Lab", "LabX2", "East Wing", "axi_7", "MiXeD", "COM4", "abc", "Z", "Q7"]
+    names = ["Lab", "LabX2", "East Wing", "axi_7", "MiXeD", "COM4", "abc", "Z", "Q7", "A+B", "x(1)", "a.c", "Zo\u00eb"]       # incl. regex metacharacters, non-ASCII
     vevs = []
     for _ in range(nv):
         L = rng.randint(0, 5)
         ab = [{"t": rng.choice(list(CATALOGUE)), "nm": rng.choice(names)} for _k in range(L)]
         ports = render(ab)
         ctx.count(("V",) + tuple(ports))
-        vevs.append(sess.event(ports, abstract=ab, extra_needles=[rng.choice(names), rng.choice(names)[:3]]))
+        vevs.append(sess.event(ports, abstract=ab, extra_needles=[rng.choice(names), rng.choice(names)[:3], "a.c".replace(".", "b")], objects=True))
     vvs = judge(ctx, "v", vevs)
     rej, drift = report(ctx, "V", vevs, vvs)
     ctx.traces += nv
@@ -198,9 +216,9 @@ def run(ctx):
                         "'no earlier port also matches' is read as: no earlier port's three strings contain the needle, ignoring case (weakest reading)",
                         "one EBB3 object is reused across all enumerations (stale state between calls is in scope)"]
     return ctx.finish(
-        rule="G: every list of <=2 ports (thorough: <=3, a third of the triples) over 8 descriptor templates x 3 names; for every listed board the lookups by the "
+        rule="G: every list of <=2 ports (thorough: <=3, a third of the triples) over 11 descriptor templates (3 near misses) x 4 names, enumerated as pyserial ListPortInfo objects (indexable like the triples of pyserial 2.7, with .device/.description/.hwid); for every listed board the lookups by the "
              "name each layer reports, the SER=/SNR= tag and the device name, each in three letter cases, plus foreign needles; V: random lists of 0..5 ports "
-             "over 7 names (underscore, mixed case, prefix pairs, a name that looks like a COM port); distinct = distinct port lists",
+             "over 13 names (underscore, mixed case, prefix pairs, a name that looks like a COM port, regex metacharacters, non-ASCII); distinct = distinct port lists",
         explanation="TLC enumerates the port lists at template level (checking the catalogue-level facts: first board is listed, description match wins), the harness "
                     "renders them to OS-style strings and runs both layers with comports rebound; TLC judges every answer at character level: FirstBoard, Listing, "
                     "lookup-in-list, LookupFindsOwn (weakest reading) and LayersAgree without SNR=; the two matchers are transcribed for DRIFT reporting.")
@@ -212,7 +230,7 @@ def replay(rec):
     ports = [tuple(p) for p in c["ports"]]
     if c.get("previous_enumeration"):
         sess.event([tuple(p) for p in c["previous_enumeration"]])      # the same EBB3 object saw this enumeration first
-    ev = sess.event(ports, extra_needles=[c["needle"]] if c.get("needle") else [])
+    ev = sess.event(ports, extra_needles=[c["needle"]] if c.get("needle") else [], objects=True)
     if ev["status"] != "ok":
         return False, {"status": ev["status"]}
     ctx = vlib.Ctx("C19", "quick", 0, LEVEL, fresh=False)
